@@ -332,3 +332,13 @@ def jobs(tier: str) -> list[Job]:
             Job('enum-strings', 'enum', _enum_strings, exhaustive=True),
             Job('enum-dates', 'enum', lambda: _enum_dates(True), exhaustive=True),
             Job('enum-numbers', 'enum', lambda: _enum_numbers(6), exhaustive=True)]
+
+
+def _fuzz_spec() -> dict:
+    """libFuzzer over (class selector byte, text): texts the harness's transcription of the terminal accepts must be handled by from_raw_text and
+    the lexer alike, all others must be rejected by the lexer."""
+    import random
+    rnd = random.Random(102)
+    g = L.G(rnd, L.Cfg(hazard_text=0.5, exotic=0.3))
+    seeds = [bytes([i % len(VALUE_CLASSES)]) + OPS.token_lexeme(g, VALUE_CLASSES[i % len(VALUE_CLASSES)]).encode('utf-8') for i in range(130)]
+    return {'runs': 600000, 'max_len': 60, 'seeds': seeds}
